@@ -78,6 +78,30 @@ class PauseScenario(cmdscn.CmdScenario):
         return super(PauseScenario, self).check_terminal(snap, ctx)
 
 
+from checks import c08 as _c08      # noqa: E402
+
+
+class PausePolicyScenario(_c08.PolicyScenario):
+    """Pause / resume around a task whose policy (timeout) has already
+    acted: timers may fire while results are in flight (PolicyScenario), the
+    pause oracles are PauseScenario's."""
+
+    def spec(self):
+        return ('checks.c10', 'PausePolicyScenario', self.kwargs())
+
+    def check_step(self, pre, post, choice, ctx):
+        v = _c08.PolicyScenario.check_step(self, pre, post, choice, ctx)
+        v.extend(PauseScenario.check_step(self, pre, post, choice, ctx))
+        return v
+
+    def check_terminal(self, snap, ctx):
+        if any(w['state'] == 'PAUSED'
+               for w in snap['workflow_executions_v2']):
+            return json.dumps(wfscn.outcome_of(snap, with_ctx=False),
+                              sort_keys=True, default=str), []
+        return _c08.PolicyScenario.check_terminal(self, snap, ctx)
+
+
 def programs():
     T, direct = wfgen.T, wfgen.direct
     C = wfgen.curated()
@@ -157,6 +181,26 @@ def scenarios(tier):
                     **kw)
                 jobs.append((scn, 1 if quick else 2,
                              40 if quick else 1200, 1))
+    # a sub-workflow task gives up (timeout, error handled) while its child
+    # is still running; the root is paused afterwards: the child below the
+    # finished task is part of the tree that must be PAUSED
+    T, direct = wfgen.T, wfgen.direct
+    child = direct({'s1': T(key='s1', action='async',
+                            **{'on-success': ['s2']}), 's2': T(key='s2')})
+    prog = direct({'a': T(workflow='sub', timeout=2,
+                          **{'on-success': ['b'], 'on-error': ['c']}),
+                   'b': T(), 'c': T(**{'on-success': ['d']}), 'd': T()},
+                  subs={'sub': child})
+    for tag, r in (('S', ['S']),):
+        scn = PausePolicyScenario(
+            'subwf_timeout/pause_resume/%s' % tag, prog,
+            results={'s1': r, 's2': ['S'], 'b': ['S'], 'c': ['S'],
+                     'd': ['S']},
+            menu=['pause', 'resume'], max_cmds=2,
+            sequences=[['pause', 'resume']], clock_devs=1,
+            compare_ctx=False)
+        # (one deviation: the timer job overtakes the child's result)
+        jobs.append((scn, 1 if quick else 2, 40 if quick else 1200, 1))
     return jobs
 
 
